@@ -1211,12 +1211,50 @@ func expandPackage(ctx context.Context, a *APK, pkg InstallablePackage) (*expand
 		return nil, fmt.Errorf("expanding %s: %w", pkg.PackageName(), err)
 	}
 
+	if err := a.verifyExpanded(pkg, exp); err != nil {
+		_ = exp.Close()
+		return nil, fmt.Errorf("verifying %s: %w", pkg.PackageName(), err)
+	}
+
 	// If we don't have a cache, we're done.
 	if a.cache == nil {
 		return exp, nil
 	}
 
 	return a.cachePackage(ctx, pkg, exp, cacheDir)
+}
+
+// verifyExpanded checks a freshly fetched package against the checksum its index
+// (or lock file) entry promises, and its data section against the control section.
+func (a *APK) verifyExpanded(pkg InstallablePackage, exp *expandapk.APKExpanded) error {
+	chk := pkg.ChecksumString()
+	want, err := base64.StdEncoding.DecodeString(strings.TrimPrefix(chk, "Q1"))
+	if err != nil {
+		return fmt.Errorf("decoding checksum %q: %w", chk, err)
+	}
+	if !bytes.Equal(want, exp.ControlHash) {
+		return fmt.Errorf("control section checksum mismatch: index has %x, package has %x", want, exp.ControlHash)
+	}
+
+	f, err := os.Open(exp.ControlFile)
+	if err != nil {
+		return err
+	}
+	defer f.Close()
+
+	// The control section is authenticated by the checksum above, so a datahash it
+	// declares authenticates the data section.
+	values, err := a.controlValue(f, "datahash")
+	if err != nil {
+		return fmt.Errorf("reading datahash from control: %w", err)
+	}
+	got := hex.EncodeToString(exp.PackageHash)
+	for _, datahash := range values {
+		if datahash != "" && datahash != got {
+			return fmt.Errorf("data section hash mismatch: control section has %s, package has %s", datahash, got)
+		}
+	}
+	return nil
 }
 
 func packageAsURI(pkg LocatablePackage) (uri.URI, error) {
